@@ -244,6 +244,25 @@ def _check_cap(b, e, L, kind):
                 if okf:
                     return "pass", "dominated by `%s`; failing edge %s" % (bound, how)
                 return "violation", "guard `%s` found but its %s" % (bound, how)
+    # path form (`if new_len < len {..} else { assert!(new_len <= capacity()); .. }` with the store after the join, possibly
+    # after an early return for new_len == len): every path to the store takes an edge on which the stored length is
+    # bounded by capacity() (failing edge panics / returns Err) or is not larger than the current length
+    good = set()
+    all_edges = [(sb, cond, True, ts, fs) for sb, cond, ts, fs in cond_edges(b)] + [(sb, cond, False, fs, ts) for sb, cond, ts, fs in cond_edges(b)]
+    for sb, arms in discr_edges(b):
+        for s2, rel in arms:
+            others = [o for o, _ in arms if o != s2] or [s2]
+            all_edges.append((sb, rel, True, s2, others[0]))
+    for sb, cond, taken, succ, other in all_edges:
+        for op, x, y in relations_on_edge(cond, taken):
+            if x != L:
+                continue
+            if is_capacity_call(y) and op in ("Le", "Lt", "Eq") and failing_edge_ok(b, other)[0]:
+                good.add((sb, succ))
+            elif kind == "lenstore" and op in ("Lt", "Le", "Eq") and y == ("field", e.obj, "length"):
+                good.add((sb, succ))
+    if good and e.loc[0] not in b.reach_avoiding([0], avoid_edges=good):
+        return "pass", "every path to it is bounded by capacity() (failing edge panics / returns Err) or does not exceed the current length"
     # debug-only guard? (present in dbg, pruned in rel) -> plain missing here
     return "violation", "no dominating comparison of the new length with capacity() whose failing edge panics / returns Err"
 
